@@ -102,4 +102,41 @@ theorem Ethernet_accepts_iff (t : Eth) (buf : Bytes) (fcs : Bool) :
       by_cases hc : crc32 (buf.take (buf.length - 4)) = leNat (buf.drop (buf.length - 4)) <;>
       cases fcs <;> simp [hv, h18, hc, h14]
 
+/-! ### review witnesses (non-trivial headers; each iff has an accepted and a rejected buffer) -/
+
+/-- IPv4 header: 0x45, total length `tl`, id 7, DF, TTL 64, UDP, 192.168.28.16 → 235.0.0.1 -/
+private def ipHdr (tl : UInt8) : Bytes := [0x45, 0, 0, tl, 0,7, 0x40,0, 64, 17, 0,0, 192,168,28,16, 235,0,0,1]
+example : (IP.unpack IP.fresh (ipHdr 24 ++ [1,2,3,4])).2 = .ok () ∧
+    (IP.unpack IP.fresh (ipHdr 24 ++ [1,2,3,4])).1.payload = [1,2,3,4] := ⟨rfl, rfl⟩
+/-- link-layer padding after the declared total length is dropped -/
+example : (IP.unpack IP.fresh (ipHdr 24 ++ [1,2,3,4, 0,0])).1.payload = [1,2,3,4] := by rfl
+example : (IP.unpack IP.fresh ((ipHdr 24).take 19)).2 = .error .value := by rfl
+/-- observation (`slice` in `IP_accepted_payload_exact` clamps): total length 30 declared, 24 bytes present — accepted,
+    the payload is the 4 bytes that are there.  `IP.unpack` performs no total-length check (the property lists only
+    the short-buffer check for IP). -/
+example : (IP.unpack IP.fresh (ipHdr 30 ++ [1,2,3,4])).2 = .ok () ∧
+    (IP.unpack IP.fresh (ipHdr 30 ++ [1,2,3,4])).1.payload = [1,2,3,4] := ⟨rfl, rfl⟩
+example : (UDP.unpack UDP.fresh [0x11,0x30, 0x15,0x7C, 0,10, 0,0, 1,2]).2 = .ok () ∧
+    (UDP.unpack UDP.fresh [0x11,0x30, 0x15,0x7C, 0,10, 0,0, 1,2]).1.payload = [1,2] := ⟨rfl, rfl⟩
+example : (UDP.unpack UDP.fresh [0x11,0x30, 0x15,0x7C, 0,10, 0]).2 = .error .value := by rfl
+open Acra.Model.Pcap in
+example : (Rec.unpack Rec.fresh [1,0,0,0, 2,0,0,0, 3,0,0,0, 3,0,0,0]).2 = .ok () := by rfl
+open Acra.Model.Pcap in
+example : (Rec.unpack Rec.fresh [1,0,0,0, 2,0,0,0, 3,0,0,0, 3,0,0,0, 9]).2 = .error .value ∧
+    (Rec.unpack Rec.fresh [1,0,0,0, 2,0,0,0, 3,0,0,0, 3,0,0]).2 = .error .value := ⟨rfl, rfl⟩
+private def arp28 : Bytes := [0,1, 8,0, 6, 4, 0,1, 0,12,77,0,10,108, 192,168,28,16, 0,0,0,0,0,0, 192,168,28,2]
+example : (ARP.unpack ARP.fresh arp28).2 = .ok () := by rfl
+example : (ARP.unpack ARP.fresh (arp28.take 27)).2 ≠ .ok () := by intro h; cases h
+private def eth14 : Bytes := [1,0,0x5E,0,0,1, 0,12,77,0,10,108, 8,0]
+example : (Eth.unpack Eth.fresh (eth14 ++ [1,2,3]) false).2 = .ok () := by rfl
+example : (Eth.unpack Eth.fresh (eth14.take 13) false).2 ≠ .ok () := by intro h; cases h
+/-- tagged: type 0x8100 needs the tag and inner type (18 bytes) -/
+example : (Eth.unpack Eth.fresh ([1,0,0x5E,0,0,1, 0,12,77,0,10,108, 0x81,0] ++ [0,5, 8,0, 1]) false).2 = .ok () := by rfl
+example : (Eth.unpack Eth.fresh ([1,0,0x5E,0,0,1, 0,12,77,0,10,108, 0x81,0] ++ [0,5, 8]) false).2 ≠ .ok () := by
+  intro h; cases h
+/-- FCS: the right CRC-32 accepted; one bit of the FCS or of the data changed → rejected -/
+example : (Eth.unpack Eth.fresh (eth14 ++ [1,2,3] ++ [169, 12, 44, 194]) true).2.isOk = true := by decide +kernel
+example : (Eth.unpack Eth.fresh (eth14 ++ [1,2,3] ++ [168, 12, 44, 194]) true).2.isOk = false := by decide +kernel
+example : (Eth.unpack Eth.fresh (eth14 ++ [1,2,4] ++ [169, 12, 44, 194]) true).2.isOk = false := by decide +kernel
+
 end Acra.Props.C09
